@@ -53,6 +53,8 @@ func runModeCtx(m string, mc *modeCtx) []*checkItem {
 		return modeGlobalsShared(mc)
 	case "opaque.ids":
 		return modeOpaqueIDs(mc)
+	case "sizes.unread":
+		return modeSizesUnread(mc)
 	case "monitor.frame":
 		return modeMonitorFrame(mc)
 	case "args.frame":
@@ -860,6 +862,50 @@ func modeOpaqueIDs(mc *modeCtx) []*checkItem {
 	// every reviewed map-key site must still exist (otherwise the list is stale)
 	if len(items) == 0 {
 		items = append(items, okItem("opaque.ids/inventory", "inventory", fmt.Sprintf("%d uses of node identifiers: only copies, equality tests, reviewed map keys (%s) and debug/monitor text", nSites, strings.Join(mc.pc.AllowedIDMapKeys, ", "))))
+	}
+	return items
+}
+
+// ---------------------------------------------------------------------------
+// phases 1-3 never read sizes or spacings: no read of Node/Layer size fields and of the two spacing parameters in the
+// packages of cycle breaking, layering, ordering, component splitting and pre/post-processing (direct reads, every function).
+
+func modeSizesUnread(mc *modeCtx) []*checkItem {
+	var items []*checkItem
+	pk := map[string]bool{"phase1": true, "phase2": true, "phase3": true, "connected": true, "preprocessor": true, "postprocessor": true}
+	n := 0
+	for _, k := range mc.pr.FuncKeys {
+		fi := mc.pr.Funcs[k]
+		if !pk[pkgShort(fi.Pkg.PkgPath)] {
+			continue
+		}
+		n++
+		info := fi.Pkg.TypesInfo
+		ast.Inspect(fi.Decl.Body, func(nd ast.Node) bool {
+			se, ok := nd.(*ast.SelectorExpr)
+			if !ok {
+				return true
+			}
+			sel, ok := info.Selections[se]
+			if !ok || sel.Kind() != types.FieldVal {
+				return true
+			}
+			f := sel.Obj().(*types.Var)
+			bad := false
+			switch f.Name() {
+			case "NodeSpacing", "LayerSpacing":
+				bad = true
+			case "X", "Y", "W", "H", "Size":
+				bad = isFloat(f.Type()) || f.Name() == "Size"
+			}
+			if bad {
+				items = append(items, failItem("sizes.unread/"+k+"/"+mc.pos(se.Pos()), "frame", k+" reads "+nodeText(mc.pr.Fset, se)+": phases 1-3 must not depend on sizes or spacings", mc.pos(se.Pos())))
+			}
+			return true
+		})
+	}
+	if len(items) == 0 {
+		items = append(items, okItem("sizes.unread", "frame", fmt.Sprintf("%d functions of phases 1-3, component splitting and pre/post-processing: no read of a size, coordinate or spacing", n)))
 	}
 	return items
 }
